@@ -40,7 +40,7 @@ func newDriver(c cfg, w *vtrace.Writer) (*driver, error) {
 	if err != nil {
 		return nil, err
 	}
-	d := &driver{s: s, w: w, rolled: map[int][]blk{}}
+	d := &driver{s: s, w: w, rolled: map[int][]blk{}, maxJobs: 1}
 	d.q = &recQueue{inner: s.pq}
 	d.ncp = s.adb.GetNumCheckpoints()
 	s.g.set(true)
@@ -105,6 +105,20 @@ func (d *driver) finish() error {
 	}
 	d.s.close()
 	return nil
+}
+
+// abort ends a trace after a failed operation: every parked goroutine is let go
+func (d *driver) abort() {
+	d.s.g.set(false)
+	for _, p := range d.s.g.parked() {
+		d.s.g.releaseOne(p)
+	}
+	for d.manual > 0 {
+		d.s.tsm.ExitPruningBufferingMode()
+		d.manual--
+	}
+	_ = settle()
+	d.s.close()
 }
 
 func randomTxs(rng *rand.Rand) []txop {
